@@ -65,7 +65,9 @@ def gen_c15(tier, rng):
                       ("empty", "never shown", []),
                       ("more", "second group", [entry("m", "inc", "I", mv="DIR", desc="include dirs", dflt=["a", "b"])])]))
     for _ in range(8000 if big else 1200):
-        names = rng.shuffle(["alpha", "beta", "gamma", "delta", "eps", "zeta", "eta", "theta", "no-x", "x", "o" * 20, "p" * 30])
+        names = rng.shuffle(["alpha", "beta", "gamma", "delta", "eps", "zeta", "eta", "theta", "no-x", "x", "o" * 20, "p" * 30,
+                              # names that differ from another one only in the case of their letters
+                              "Alpha", "BETA", "X"])
         letters = rng.shuffle(list("abcdefgxyzAB1"))
         ngroups = 1 + rng.below(4)
         gnames = rng.shuffle(["output", "input", "misc", "zeta group", "alpha group", "Group 1"])
